@@ -1,7 +1,8 @@
 (* Props/C17.v — property C17: transcoded input is searched as its UTF-8 equivalent.  PARTIAL: the third-party
    transcoder (encoding_rs, encoding_rs_io) is modelled, not verified; see notes/C17.md.
    Only statements; proofs are one `exact`/`apply` or a vm_compute witness. *)
-From RG Require Import Base.Bytes Model.Decode Spec.Utf16Spec Proofs.DecodeProofs Proofs.Utf16SpecProofs.
+From RG Require Import Base.Bytes Model.Decode Spec.Utf16Spec Spec.Utf8Spec Proofs.DecodeProofs Proofs.Utf16SpecProofs
+  Proofs.Utf8SpecProofs.
 
 (* 1. which decoder the searcher's reader ends up with, for the settings SearcherBuilder::build makes and the
       three --encoding modes: stated for the code as it is *)
@@ -90,13 +91,60 @@ Theorem searched_utf16_label :
 Proof. exact searched_utf16_label_proof. Qed.
 Print Assumptions searched_utf16_label.
 
-(* 3d. the UTF-8 decoder of -E utf-8 (validation, U+FFFD per maximal ill-formed subpart, mark removal; compared
-       with encoding_rs on every run) is fragmentation independent too; its equality with a declarative
-       well-formedness specification is NOT proved *)
+(* 3d. the UTF-8 decoder of -E utf-8 (WHATWG machine: bytes needed / lower / upper boundary, mark held back and
+       removed; compared with encoding_rs on every run) is fragmentation independent ... *)
 Theorem utf8_chunk_independent :
   forall chunks : list bytes, u8_stream u8_init chunks = utf8_to_utf8 (concat chunks).
 Proof. exact utf8_chunk_independent_proof. Qed.
 Print Assumptions utf8_chunk_independent.
+
+(* 3e. ... and equals the declarative specification Spec/Utf8Spec.v (Unicode table 3-7 `lead_class`; a complete
+       well-formed sequence is copied, each maximal ill-formed subpart becomes one EF BF BD; one leading EF BB BF is
+       removed), for every input and, composed with 3d, every fragmentation *)
+Theorem utf8_decoder_eq_spec :
+  forall s : bytes, utf8_to_utf8 s = utf8_spec_bom s.
+Proof. exact utf8_decoder_eq_spec_proof. Qed.
+Print Assumptions utf8_decoder_eq_spec.
+
+Theorem utf8_stream_eq_spec :
+  forall chunks : list bytes, u8_stream u8_init chunks = utf8_spec_bom (concat chunks).
+Proof. exact utf8_stream_eq_spec_proof. Qed.
+Print Assumptions utf8_stream_eq_spec.
+
+(* the fuel of utf8_spec (one unit per input byte) is never what ends it *)
+Theorem utf8_spec_fuel_enough :
+  forall (f : nat) (s : bytes), length s <= f -> spec_fuel f s = utf8_spec s.
+Proof. exact spec_fuel_enough. Qed.
+Print Assumptions utf8_spec_fuel_enough.
+
+(* 3f. sanity of the specification: well-formed input is unchanged; the output is always well-formed *)
+Theorem utf8_valid_unchanged :
+  forall s : bytes, utf8_valid s -> utf8_spec s = s.
+Proof. exact utf8_valid_unchanged_proof. Qed.
+Print Assumptions utf8_valid_unchanged.
+
+Theorem utf8_spec_valid :
+  forall s : bytes, utf8_valid (utf8_spec s).
+Proof. exact utf8_spec_valid_proof. Qed.
+Print Assumptions utf8_spec_valid.
+
+Theorem utf8_decoder_valid_unchanged :
+  forall s : bytes, utf8_valid s -> starts3 239 187 191 s = false -> utf8_to_utf8 s = s.
+Proof. exact utf8_decoder_valid_unchanged_proof. Qed.
+Print Assumptions utf8_decoder_valid_unchanged.
+
+Theorem utf8_decoder_output_valid :
+  forall s : bytes, utf8_valid (utf8_to_utf8 s).
+Proof. exact utf8_decoder_output_valid_proof. Qed.
+Print Assumptions utf8_decoder_output_valid.
+
+(* 3g. so under an explicit utf-8 label an input without a UTF-16 mark is searched as its UTF-8 equivalent under
+       replacement (an input starting EF BB BF: for_bom is Some, see selection_table: the label's decoder stays and
+       the peeker removes the mark; a second mark is then removed by the decoder: known finding SecondMarkRemoved) *)
+Theorem searched_utf8_label :
+  forall s : bytes, for_bom s = None -> searched_bytes (EncSome Utf8) s = Some (utf8_spec_bom s).
+Proof. exact searched_utf8_label_proof. Qed.
+Print Assumptions searched_utf8_label.
 
 (* 4. --encoding none: the raw bytes, mark included, and never the reader detour *)
 Theorem none_is_identity :
@@ -127,6 +175,20 @@ Example utf8_decoder_example :      (* overlong C0 AF, surrogate ED A0 80, trunc
   u8_stream u8_init [[192%N]; [175; 237]%N; [160; 128; 240; 159]%N; [152; 97]%N]
   = (replacement ++ replacement) ++ (replacement ++ replacement ++ replacement) ++ replacement ++ [97%N].
 Proof. vm_compute. reflexivity. Qed.
+
+Example utf8_spec_example :     (* "é" C0 AF (overlong) ED A0 80 (surrogate) F0 9F 98 (truncated) "a" *)
+  utf8_spec [195; 169; 192; 175; 237; 160; 128; 240; 159; 152; 97]%N
+  = [195; 169]%N ++ (replacement ++ replacement) ++ (replacement ++ replacement ++ replacement) ++ replacement ++ [97%N].
+Proof. vm_compute. reflexivity. Qed.
+
+Example utf8_valid_example :    (* é 日 😀 a *)
+  utf8_valid [195; 169; 230; 151; 165; 240; 159; 152; 128; 97]%N.
+Proof.
+  apply (uv_seq 195 [169%N] _ 1 128 191); try reflexivity.
+  apply (uv_seq 230 [151; 165]%N _ 2 128 191); try reflexivity.
+  apply (uv_seq 240 [159; 152; 128]%N _ 3 144 191); try reflexivity.
+  apply (uv_seq 97 [] _ 0 128 191); try reflexivity. constructor.
+Qed.
 
 Example auto_utf16le_example :
   searched_bytes EncAuto [255; 254; 97; 0; 10; 0]%N = Some [97; 10]%N.
